@@ -107,6 +107,8 @@ class Hooks:
                 for (t, p) in s.calls:
                     c.prove("loop.measurement.own_time", z3.And(z3.Not(t.inf), t.v == w.Mt(mi0)), "compute_matrices evaluated at the stamp M[mi]", concretize=w.concretize)
             c.prove("loop.measurement.index_advance", mi1 == mi0 + (1 if processed else 0), "cursor advances by one iff a stamp was used", concretize=w.concretize)
+            if getattr(self, "kalman", None) is not None:
+                sched.kalman_threading(c, self.kalman)
             for s in self.sensors:
                 nm = s.__class__.__name__
                 want = [t for x in self.sensors if x.__class__.__name__ == nm for (t, p) in x.calls if p]
@@ -206,7 +208,8 @@ def scenario(py, code, mode, with_inc, equal_index=True):
                     return b
             return I_()
     ns = dict(F.__dict__)
-    ns.update(__pvx=hooks, np=sched.ZNp(w), pd=OPAQUE, kalman=OPAQUE, transform=OPAQUE, earth=OPAQUE, Rotation=OPAQUE,
+    hooks.kalman = sched.KalmanStub()
+    ns.update(__pvx=hooks, np=sched.ZNp(w), pd=OPAQUE, kalman=hooks.kalman, transform=OPAQUE, earth=OPAQUE, Rotation=OPAQUE,
               util=cap, inertial_sensor=InertialNS, InsErrorModel=lambda wa=True: OPAQUE,
               _initialize_covariance=lambda *a, **k: OPAQUE,
               _compute_error_propagation_matrices=lambda *a, **k: (OPAQUE, OPAQUE),
